@@ -5,7 +5,7 @@ from common import *
 import vm_corr, vm_checks, progs
 
 PROP_MODULE = "NeverModel.Props.C07"
-REQUIRED = ["verified_table_wellformed", "verified_every_fault_has_handler", "verified_nonempty", "simple_effect_sound_arith"]
+REQUIRED = ["Never.C07.verified_table_wellformed", "Never.C07.verified_every_fault_has_handler", "Never.C07.verified_nonempty", "Never.C07.simple_effect_sound_arith"]
 
 def verify_dump(path):
     p = subprocess.run([NMDRV, "verify", path], stdout=subprocess.PIPE, stderr=subprocess.PIPE, text=True, timeout=300)
